@@ -45,11 +45,20 @@ def codec_pairing(ctx, rep, rule: str) -> None:
     rep.floor(rule, "flat-key constructions in flatten", len(keys), 1)
     for fi, k in keys:
         is_dumps = isinstance(k, ast.Call) and A.callee_name(repo, m, k) == "json.dumps" and len(k.args) == 1 and not k.keywords
-        path_list = is_dumps and isinstance(k.args[0], ast.BinOp) and isinstance(k.args[0].op, ast.Add) and isinstance(k.args[0].right, ast.List) and len(k.args[0].right.elts) == 1 and "parent_keys" in _norm(k.args[0].left)
+        path_list = is_dumps and isinstance(k.args[0], ast.BinOp) and isinstance(k.args[0].op, ast.Add) and isinstance(k.args[0].right, ast.List) and len(k.args[0].right.elts) == 1 and _norm(k.args[0].left) == "parent_keys"
         rep.ob(rule, "flat-key-is-json-of-whole-path", bool(is_dumps and path_list), fi.loc(k), f"flat key expression `{_norm(k)[:80]}` must be json.dumps(parent_keys + [key]): an injective encoding of the whole path that keeps int vs str keys (string concatenation / join / hand-rolled quoting is not injective for keys containing the separator or quotes)", sample=True)
     # recursion extends the path by exactly the child key
     rec = [c for fi in A.local_callees(repo, fl) for c in A.calls(fi.node) if isinstance(c.func, ast.Name) and c.func.id == "flatten_with_parent_keys"]
-    ok = any(_norm(A.keyword(c, "parent_keys")) == "parent_keys + [key]" for c in rec)
+    # the key appended is the key of the child being flattened: the helper's own `key` parameter, or the key variable of the
+    # `.items()` iteration the recursion sits in (when the per-child helper is written inline)
+    item_keys = {"key"}
+    for fi_ in [fl] + A.local_callees(repo, fl):
+        for n in ast.walk(fi_.node):
+            gens = n.generators if isinstance(n, (ast.GeneratorExp, ast.ListComp, ast.DictComp, ast.SetComp)) else ([n] if isinstance(n, ast.For) else [])
+            for g in gens:
+                if _norm(g.iter).endswith(".items()") and isinstance(g.target, ast.Tuple) and g.target.elts and isinstance(g.target.elts[0], ast.Name):
+                    item_keys.add(g.target.elts[0].id)
+    ok = any(_norm(A.keyword(c, "parent_keys")) in {f"parent_keys + [{k}]" for k in item_keys} for c in rec)
     rep.ob(rule, "recursion-extends-path-by-child-key", ok, fl.loc(), "nested dicts are flattened with parent_keys + [key]")
     un = repo.func(f"{CKPT_MOD}:unflatten")
     loads = [n for n in A.walk_no_nested(un.node) if isinstance(n, ast.Assign) and isinstance(n.value, ast.Call) and A.callee_name(repo, un.module, n.value) == "json.loads"]
